@@ -105,14 +105,38 @@ theorem WCtx.finishBatch_wu (c : WCtx) (b : List WReq) (t : Option WReq) (ok : B
   rw [WCtx.finishBatch_eq] at hnd ⊢
   cases t with
   | none =>
-    simp only at hnd ⊢
-    apply WCtx.toRecv_wu _ hnd
-    simpa using h
+    apply WCtx.nonFlush_wu _ _ rfl hnd
+    · simpa [tailEnts, annIds] using hinc
+    · have h' : WUA c.fs (newestId c.w.files) 0 [] c.w.queue := by simpa using h
+      exact ⟨by simpa [tailEnts, uptoOK, tailIds] using h'.a1, fun r hr => (by cases hr),
+        by simpa [tailEnts, annIds, tailIds] using h'.a3⟩
   | some r =>
-    simp only at hnd ⊢
-    apply WCtx.nonFlush_wu _ r (ht r rfl) hnd
-    · simpa using hinc
-    · simpa using h
+    cases r with
+    | write u d cb => exact absurd (ht _ rfl) (by simp [WReq.isWrite])
+    | removeChunks ids =>
+      apply WCtx.nonFlush_wu _ _ rfl hnd
+      · simpa [tailEnts, WReq.ents] using hinc
+      · simpa [tailEnts, WReq.ents] using h
+    | appendFile n p =>
+      have hinc' : Incr (newestId c.w.files :: n :: annIds c.w.queue) := by simpa [annIds] using hinc
+      have h' : WUA c.fs (newestId c.w.files) 0 [] (.appendFile n p :: c.w.queue) := by simpa using h
+      have hq : WUA c.fs n 0 [] c.w.queue := by
+        have h1 := h'.a1
+        simp only [uptoOK, Nat.add_zero] at h1
+        simp only [Incr, List.pairwise_cons] at hinc'
+        have hlt : newestId c.w.files < n := hinc'.1 n (by simp)
+        refine ⟨by simpa using h1.2, fun r hr => (by cases hr), ?_⟩
+        intro i hi hni
+        have := h'.a3 i hi (by omega)
+        simp only [annIds, List.mem_cons] at this
+        rcases this with e' | e'
+        · omega
+        · exact e'
+      apply WCtx.nonFlush_wu _ _ rfl hnd
+      · simp only [Incr, List.pairwise_cons] at hinc'
+        simpa [tailEnts, WReq.ents, newestId_append, annIds, tailReq, tailIds, Incr] using hinc'.2
+      · simp only [WCtx.fb1_w, WCtx.fb1_fs, tailEnts, WReq.ents, newestId_append, tailReq, tailIds]
+        exact ⟨by simpa [uptoOK] using hq.a1, fun r hr => (by cases hr), by simpa [annIds] using hq.a3⟩
 
 theorem WCtx.startSync_wu (c : WCtx) (b : List WReq) (t : Option WReq)
     (ht : tailOK t) (hnd : (c.startSync b t).w.pc ≠ .dead)
